@@ -407,7 +407,7 @@ def check_cursor(ctx, f, node, name, ix, post, an=None):
     if st is None:
         return None
     pb = st.get(("pb", name))
-    if pb is None:
+    if pb is None or pb[0] is None:
         return None
     n = pb[0]
     off = st.get(("iv", "@" + name), (None, None))
